@@ -70,6 +70,15 @@ func TestC17Registry(t *testing.T) {
 			if err != nil {
 				ev.Infra(t, "view: %v", err)
 			}
+			if sim.W.Runtime != nil {
+				if rs, err := view.RuntimeState(sim.W.Runtime.ID); err != nil {
+					rec.Label("block:runtime=unreadable")
+				} else if rs.Suspended {
+					rec.Label("block:runtime=suspended")
+				} else {
+					rec.Label("block:runtime=active")
+				}
+			}
 			bg := sim.GenBlock(t, view, 3)
 			// registry traffic on top
 			g := chain.NewTxGen(sim.W, view, "registry")
